@@ -211,6 +211,7 @@ func (m *monitors) tap(t *TapMsg) {
 		req := &proto.TruncateRequest{}
 		if pb.Unmarshal(t.Payload, req) == nil {
 			m.clearFence(t.Dst, req.Shard, req.Term)
+			m.checkTruncate(t, req)
 		}
 	case t.Kind == "open" && (strings.HasSuffix(meth, "/Replicate") || strings.HasSuffix(meth, "/SendSnapshot")):
 		var term, shard int64 = -1, 0
@@ -243,6 +244,81 @@ func (m *monitors) tap(t *TapMsg) {
 			}
 		}
 	}
+}
+
+// checkTruncate: C03.  A leader must never cut a follower below what that follower has already
+// applied as committed.  mu held; runs at delivery, before the follower handles the request.
+func (m *monitors) checkTruncate(t *TapMsg, req *proto.TruncateRequest) {
+	fn, ln := m.c.w.Node(t.Dst), m.c.w.Node(t.Src)
+	if fn == nil || fn.EP.Dead() || fn.Server == nil || req.HeadEntryId == nil {
+		return
+	}
+	fv, ok := fn.Server.SimShardView(req.Shard)
+	if !ok || fv.Wal == nil || fv.Status == proto.ServingStatus_LEADER {
+		return
+	}
+	m.c.r.Count("truncates_checked", 1)
+	applied := fv.CommitOffset
+	if fv.DB != nil {
+		if c, err := fv.DB.ReadCommitOffset(); err == nil && c > applied {
+			applied = c
+		}
+	}
+	cut := req.HeadEntryId.Offset
+	if applied <= cut {
+		return
+	}
+	termAt := func(w wal.Wal, off int64) int64 {
+		ents, err := readLog(w, off-1)
+		if err != nil || len(ents) == 0 || ents[0].Offset != off {
+			return -1
+		}
+		return ents[0].Term
+	}
+	// the first applied offset at which the leader holds a *different* entry than the follower; a leader
+	// that no longer has those offsets in its log (trimmed, or itself built from a snapshot) re-sends a
+	// snapshot, which is not a divergence
+	var lw wal.Wal
+	if ln != nil && !ln.EP.Dead() && ln.Server != nil {
+		if lv, ok := ln.Server.SimShardView(req.Shard); ok {
+			lw = lv.Wal
+		}
+	}
+	if lw == nil {
+		return
+	}
+	at, tf, tl := int64(-1), int64(-1), int64(-1)
+	for off := cut + 1; off <= applied; off++ {
+		a, b := termAt(fv.Wal, off), termAt(lw, off)
+		if a < 0 {
+			continue
+		}
+		if b < 0 {
+			if off > lw.LastOffset() && lw.LastOffset() >= lw.FirstOffset() && lw.FirstOffset() <= cut+1 {
+				// the leader's log ends before an entry the follower has applied as committed
+				at, tf, tl = off, a, -1
+				break
+			}
+			continue
+		}
+		if a != b {
+			at, tf, tl = off, a, b
+			break
+		}
+	}
+	if at < 0 {
+		m.c.r.Count("truncates_below_commit_benign", 1)
+		return
+	}
+	why := fmt.Sprintf("at offset %d the follower holds an entry of term %d, the leader an entry of term %d", at, tf, tl)
+	if tl < 0 {
+		why = fmt.Sprintf("the leader's log ends at offset %d, before the follower's committed entry %d (term %d)", lw.LastOffset(), at, tf)
+	}
+	if tf >= 0 && tl > tf {
+		why = fmt.Sprintf("the follower's entries from offset %d on are of term %d and were committed later, in a higher term, by a leader that added no entry of its own; the new leader holds never-committed entries of the intermediate term %d at those offsets and won the election on its higher head term", at, tf, tl)
+	}
+	m.fail("C03", "committed-entries-truncated", "leader %s (term %d) tells follower %s to truncate shard %d to offset %d although the follower has applied entries up to offset %d as committed: %s; follower log %s",
+		t.Src, req.Term, t.Dst, req.Shard, cut, applied, why, termsOf(fv.Wal))
 }
 
 func (m *monitors) clearFence(node string, shard, term int64) {
